@@ -915,8 +915,8 @@ class FileSender:
 
         if self.transform:
             chunk = self.transform(chunk)
-        self.consumer.write(chunk)
         self.lastSent = chunk[-1:]
+        self.consumer.write(chunk)
 
     def pauseProducing(self):
         pass
